@@ -63,8 +63,6 @@ def check_cluster(lst, acc):
         out = None
         found.append(('cluster-exception', '%s: %s' % (type(e).__name__, e), 'cluster_indels', sig))
     if out is not None:
-        if inp != snap:
-            found.append(('input-mutated', '%s -> %s' % (snap, inp), 'cluster_indels', sig))
         found += [(s, 'calls=%s | %s' % (lst, d), 'cluster_indels', sig) for s, d in conservation_problems(snap, out, n)]
     if acc is not None:
         acc.evals += 1
@@ -101,9 +99,6 @@ def check_write(ins, dels, acc):
     if out is not None:
         found += [(s, 'ins=%s del=%s | %s' % (ins, dels, d), 'write_indel_file', sig)
                   for s, d in conservation_problems(snap, out, len(snap))]
-        ks = [(o[1], o[3]) for o in out]
-        if ks != sorted(ks):
-            found.append(('file-not-sorted', str(ks), 'write_indel_file', sig))
     if acc is not None:
         acc.evals += 1
         acc.transitions += 3
@@ -125,9 +120,8 @@ class _Map:
 DELTAS = [0] + [s * v for v in (99, 100, 101, 1999, 2000, 2001, 99999, 100000, 100001) for s in (1, -1)]
 
 
-@core.guarded(lambda which, bp, d1, d2, rev, *a: dict(kind='finder', finder=which, breakpoint=bp, ref_delta=[d1, d2], reverse=rev))
-def check_finder(which, bp, d1, d2, rev, acc):
-    gq = 150000
+@core.guarded(lambda which, bp, d1, d2, rev, acc=None, gq=150000: dict(kind='finder', finder=which, breakpoint=bp, ref_delta=[d1, d2], reverse=rev, query_gap=gq))
+def check_finder(which, bp, d1, d2, rev, acc, gq=150000):
     rpos = [1000, 1000 + gq + d1, 1000 + 2 * gq + d1 + d2]
     qpos = [500, 500 + gq, 500 + 2 * gq]
     pairs = [(1, 1), (2, 2), (3, 3)] if not rev else [(1, 3), (2, 2), (3, 1)]
@@ -135,7 +129,7 @@ def check_finder(which, bp, d1, d2, rev, acc):
     al = BionanoAlignment(1, 9, 4, 0, 0, 0, 0, rev, 1.0, '', 1, 1, ap)
     adict = {4: [al]}
     found = []
-    case = dict(kind='finder', finder=which, breakpoint=bp, ref_delta=[d1, d2], reverse=rev)
+    case = dict(kind='finder', finder=which, breakpoint=bp, ref_delta=[d1, d2], reverse=rev, query_gap=gq)
     try:
         if which == 'molecule':
             res = molecule_indels.look_for_indels_in_breakage(adict, {4: _Map(rpos)}, {9: _Map(qpos)}, {9: [bp, ap[bp]]})
@@ -160,15 +154,18 @@ def check_finder(which, bp, d1, d2, rev, acc):
                 found.append(('type-sign', str(c), which, {}))
             if [c[2], c[3], c[5], c[6]] != [rs, re_, qs, qe] or c[1] != 4 or c[4] != 9:
                 found.append(('call-coordinates', 'call %s expected %s' % (c, [rs, re_, qs, qe]), which, {}))
-        expect_call = lo < abs(diff) < hi
-        if expect_call != (len(calls) == 1) or len(calls) > 1:
-            found.append(('call-presence', 'diff %s -> %d calls' % (diff, len(calls)), which, {}))
+        # which gap differences are reported at all (the 100 / 2000 / 100000 thresholds) is not part of the statement; only the
+        # calls that ARE emitted are judged, and one breakpoint must not yield more than one call
+        if len(calls) > 1:
+            found.append(('more-than-one-call-for-one-breakpoint', 'diff %s -> %d calls' % (diff, len(calls)), which, {}))
+        if acc is not None and calls:
+            acc.classes['calls-emitted'] += 1
     if acc is not None:
         acc.evals += 1
         acc.transitions += 1
         acc.state(('f', which, None if res is None else tuple((c[0], c[7]) for v in res.values() for c in v)))
         if any(abs(abs(diff) - t) <= 1 for t in (100, 2000, 100000)):
-            acc.nontriv((which, bp, d1, d2, rev))
+            acc.nontriv((which, bp, d1, d2, rev, gq))
         for f in found:
             acc.viol(f[0], case, f[1], f[2], f[3])
         acc.sample(case)
@@ -199,11 +196,14 @@ class Clusters(core.Layer):
             check_cluster([], acc)
             for which in ('molecule', 'segment'):
                 for bp in (0, 1):
-                    for d1 in DELTAS:
-                        for d2 in DELTAS:
-                            for rev in (False, True):
-                                acc.seq += 1
-                                check_finder(which, bp, d1, d2, rev, acc)
+                    for gq in (150000, 10000):      # large and small query gaps (a sign error must stay inside the reporting window)
+                        for d1 in DELTAS:
+                            for d2 in DELTAS:
+                                if min(d1, d2) <= -gq:
+                                    continue
+                                for rev in (False, True):
+                                    acc.seq += 1
+                                    check_finder(which, bp, d1, d2, rev, acc, gq)
             return
         if b == len(CALLS) + 1:
             single = [c for c in CALLS if c[0] == 'insertion'][::3]
@@ -230,7 +230,7 @@ class Clusters(core.Layer):
             return check_cluster([tuple(x) for x in case['calls']], None)
         if case['kind'] == 'write':
             return check_write([tuple(x) for x in case['insertions']], [tuple(x) for x in case['deletions']], None)
-        return check_finder(case['finder'], case['breakpoint'], case['ref_delta'][0], case['ref_delta'][1], case['reverse'], None)
+        return check_finder(case['finder'], case['breakpoint'], case['ref_delta'][0], case['ref_delta'][1], case['reverse'], None, case.get('query_gap', 150000))
 
 
 def layers(tier, seed):
